@@ -234,6 +234,23 @@ def run(ctx):
 
     C20_reg.run(ctx)
 
+    # C20.6 nothing that builds or re-binds module state runs under torch.inference_mode() -------------------------------
+    # tensors created inside inference mode are inference tensors: they can be read anywhere but never updated in place
+    # afterwards.  A module method that (re)creates buffers - finalise() of the LARS base distribution re-assigns its
+    # `norm`, load_state_dict, reset / initialisation code - must therefore not run inside such a block, or a later in-place
+    # reset (`reset_weights` under the `reset_weights=k` option) raises in the middle of a run.  Inside every
+    # `with torch.inference_mode()` / `no_grad()` block of the package only evaluation calls are made.
+    EVAL_CALLS = {"forward", "inverse", "log_prob", "sample", "sample_and_log_prob", "forward_and_log_prob", "base_distribution_log_prob", "sample_latent_distribution", "numpy_array_to_tensor", "item", "cpu", "numpy", "detach", "astype", "inference_mode", "no_grad", "sample_ith", "log_prob_ith", "to", "double", "float", "exp", "log", "sum", "mean", "max", "min", "isfinite", "isnan", "any", "all", "array", "asarray", "view", "reshape", "squeeze", "tolist", "size", "shape"}
+    n_inf = 0
+    for f_ in fns:
+        for w_ in walk_no_nested(f_.node):
+            if isinstance(w_, ast.With) and any(("inference_mode" in src(i_.context_expr) or "no_grad" in src(i_.context_expr)) for i_ in w_.items):
+                n_inf += 1
+                bad_ = sorted({src(c_.func)[:50] for b_ in w_.body for c_ in ast.walk(b_) if isinstance(c_, ast.Call) and isinstance(c_.func, ast.Attribute) and c_.func.attr not in EVAL_CALLS})
+                ctx.ob("R-API", "C20.6", f_, "inside torch.inference_mode() / no_grad() only evaluation calls are made (nothing that creates or re-binds module state)", not bad_, f"calls {bad_}", node=w_)
+    ctx.require(n_inf >= 8, f"only {n_inf} inference-mode blocks found")
+    ctx.floor("C20.6", 8)
+
     # C20.5 an option that reads state the checkpoint does not carry -----------------------------------------------------
     # "runs to completion" includes a run that was checkpointed and resumed: an attribute that a __getstate__ drops or
     # nulls must be rebuilt on the resume path, or be read only under options that exclude the nulling (else the option
